@@ -356,7 +356,7 @@ theorem on_source : Evl.Generated.dispatchFacts =
 the spawner that waits for them, around the traversal goroutines: a node that calls back into the
 Broker (even a registering call) cannot wedge the Send it runs in. -/
 theorem send_holds_no_lock :
-    ((Evl.Generated.brokerCallbacks.filter (fun c => c.kind == 0)).all (fun c => c.brokerLock == 0)) = true ∧
+    ((Evl.Generated.brokerCallbacks.filter (fun c => c.kind == 0)).all (fun c => c.brokerLock == 0 && c.otherLocks == 0)) = true ∧
     (Evl.Generated.brokerCallbacks.any (fun c => c.kind == 0)) = true ∧ Evl.Generated.lockLeaks = 0 ∧
     -- ... nor a lock of the pipeline map: it is a sync.Map, whose Range holds nothing while the call-back
     -- (the root node's Process) runs
